@@ -173,6 +173,13 @@ def run_property(prop, tier):
         if corr:
             rec['input'] = corr[0]['op']
             rec['input_decoded'] = decode_op(corr[0]['op'])
+        if prop == 'C06':
+            # name the source facts (T2) that no longer hold: they are what Props/C06.source_facts_hold requires
+            try:
+                ft = open(os.path.join(LEAN, 'Clemens', 'Gen', 'UciFacts.lean')).read()
+                rec['source_facts_false'] = re.findall(r'\("([A-Za-z0-9_]+)", false\)', ft)
+            except OSError:
+                pass
         path = write_replay(prop, seed, 0, rec)
         print('VIOLATION property=%s replay=%s no-failing-input-found' % (prop, path))
         violations += 1
